@@ -190,7 +190,14 @@ def _case(draw):
         fl = model.flat_coords(kind, src) if src is not None else []
         fl = [v for v in fl if v == v]
         boxes.append(draw(gen.feature_boxes(fl, u, allow_degenerate=degenerate_ok)))
-    inds = draw(st.one_of(st.none(), st.lists(st.integers(0, len(els) - 1), min_size=0, max_size=6)))
+    if kind in ('point', 'multipoint') and any(e is None for e in els):
+        # the slot of a missing point holds placeholder bytes (zeros): one box that contains the origin and all the data, so
+        # a form that reads the slot instead of the validity mask is seen
+        allv = [v for e in els if e is not None for v in model.flat_coords(kind, e) if v == v] + [0, 0]
+        boxes.append([min(allv[0::2]) - u, min(allv[1::2]) - u, max(allv[0::2]) + u, max(allv[1::2]) + u])
+    # positions form: none, a drawn list (repeats, any order, possibly empty), or every position once (so that missing and
+    # empty neighbours are asked through this form as well)
+    inds = draw(st.one_of(st.none(), st.lists(st.integers(0, len(els) - 1), min_size=0, max_size=6), st.just(list(range(len(els)))[::-1])))
     reback = draw(st.sampled_from(model.REBACKINGS))
     return {'kind': kind, 'subtype': subtype, 'elements': els, 'reback': reback, 'boxes': boxes, 'inds': inds,
             'sindex': draw(st.booleans()),
